@@ -95,6 +95,27 @@ CLAIMS["C13"] = dict(
     technique="contract-based deductive verification: generated reduction/map loop invariants on the kernel source, loop contract on update(), VCs to z3",
     note=TRUST + " Precondition: no edge centre coincides with a site. The site average (bincount) is not under contract. Unit factor mu0/4pi K0/A0 xi^2 belongs to C08.")
 
+CLAIMS["C20"] = dict(
+    category="proof",
+    text="The real Biot-Savart kernels (z and vector), executed as their Python source with mechanically generated loop invariants, equal the direct "
+         "sums mu0/4pi * sum_k a_k (J_k x r)/|r|^3 of the docstring for every evaluation point off the sheet; each summand is linear in the current "
+         "densities; the scalar kernel's summands are those of the z component of the vector kernel; the four pairwise-distance kernels and the "
+         "cdist dispatcher are correct. NOT under contract (bounded native run only, thorough tier): pint unit conversion, convert_field round trip, "
+         "Solution.field_at_position assembly, loop vector potential vs quadrature.",
+    design_ref="DESIGN.md section 4 C20",
+    technique="contract-based deductive verification: generated reduction/map loop invariants on the kernel sources, summand VCs to z3",
+    note=TRUST + " Evaluation points off the film plane (r != 0). Linearity of the whole sum from linearity of the summand is a trusted finite-sum lemma.")
+CLAIMS["C09"] = dict(
+    category="other",
+    text="Bit-for-bit identity across processes and thread counts is not expressible in a real-arithmetic contract and is NOT decided. Decided, for all "
+         "inputs: the 7 parallel kernels are race free (iteration i writes only its own slice, reads nothing another iteration writes, no loop-carried "
+         "state reaches a written value), every element of their np.empty output buffers is assigned before use, and the random sample times of "
+         "validate_terminal_currents reach nothing but the accept/reject decision, which for currents balanced at all times does not depend on them. "
+         "The thorough tier adds a bounded native run (sha256 over 3 configurations x 1/4/16 threads in fresh processes).",
+    design_ref="DESIGN.md section 4 C09",
+    technique="contract-based deductive verification of the source-level hazards (generated loop invariants with race-freedom side conditions); bit identity only bounded",
+    note=TRUST + " Triangle/qhull/SuperLU/numba code generation are outside contracts; level claimed is 'other', not proof.")
+
 NA = {}
 
 checks = []
